@@ -17,8 +17,9 @@ class Name:
 
 
 class Sim:
-    def __init__(self, k):
+    def __init__(self, k, kids=()):
         self.k = k
+        self.kids = set(kids)
         self.N = [Name() for _ in range(k)]
         self.held = False
         self.gated = []
@@ -66,7 +67,7 @@ class Sim:
             if x.node is None:
                 self.finish(x, p + 1, p, x.cnt)
             else:
-                self.finish(x, x.node + 1, x.node, x.cnt - 1)
+                self.finish(x, (p if n in self.kids else x.node) + 1, x.node, x.cnt - 1)
             return True
         if k == "Stop":
             p = l[2]
@@ -115,9 +116,11 @@ class Sim:
         k = a[0]
         if k == "call":
             n, g = a[1], a[2]
-            winner = self.N[n].flight is None
+            x = self.N[n]
+            winner = x.flight is None
+            found = x.node is not None and x.node in x.runs
             self.step(("Call", n))
-            if winner and g:
+            if winner and g and not found:
                 self.gated = [n] + self.gated
         elif k == "release_pre":
             n = a[1]
@@ -165,7 +168,7 @@ def gen_scenarios(ctx):
     out = []
 
     def build(k, kinds, script, tag):
-        sim = Sim(k)
+        sim = Sim(k, [n for n in range(k) if kinds[n] == "child"])
         acts, expect = [], []
         for a in script:
             sim.drive(a)
@@ -177,7 +180,7 @@ def gen_scenarios(ctx):
     while len(out) < n_sc:
         k = rng.choice([1, 2, 3])
         kinds = [rng.choice(["spawn", "func", "child", "mixed"]) for _ in range(k)]
-        sim = Sim(k)
+        sim = Sim(k, [n for n in range(k) if kinds[n] == "child"])
         acts, expect = [], []
 
         def do(a):
@@ -201,7 +204,9 @@ def gen_scenarios(ctx):
                 do(["release_dw"])
             else:
                 do(["call", n, False])
-        while sim.gated:
+        for _ in range(8):
+            if not sim.gated:
+                break
             do(["release_pre", sim.gated[0]])
         if sim.held:
             do(["release_dw"])
